@@ -138,6 +138,10 @@ type cluster struct {
 	nFaults  int
 	nDeletes int
 	nResizes int
+	nTicks   int
+	failFold bool
+	pendingCleaner int
+	cleanerTick map[int]chan time.Time
 	attachAt map[int]int // be seq -> number of writes issued when it was attached
 	synced   map[int]bool
 	failedBE map[int]bool // be seq -> failed a call by script
@@ -373,7 +377,7 @@ func newCluster(cfg *Cfg, scratch string) *cluster {
 		cfg.N = cfg.RF + 1
 	}
 	os.Setenv("REPLICATION_FACTOR", fmt.Sprint(cfg.RF))
-	cl := &cluster{cfg: cfg, fe: &frontend{}, cnt: map[string]int{}, acked: map[int]bool{}, issued: map[int]bool{}, attachAt: map[int]int{}, synced: map[int]bool{}, failedBE: map[int]bool{}, adds: map[int]*task{}, regTruth: map[int]int64{}, opFailed: map[int]bool{},
+	cl := &cluster{cfg: cfg, fe: &frontend{}, cnt: map[string]int{}, acked: map[int]bool{}, issued: map[int]bool{}, attachAt: map[int]int{}, synced: map[int]bool{}, failedBE: map[int]bool{}, adds: map[int]*task{}, pendingCleaner: -1, cleanerTick: map[int]chan time.Time{}, regTruth: map[int]int64{}, opFailed: map[int]bool{},
 		failIO: map[int]bool{}, failREST: map[string]bool{}, stickyREST: map[string]bool{}}
 	cl.down = make([]bool, cfg.N)
 	for i := 0; i < cfg.N; i++ {
